@@ -1,7 +1,7 @@
 /-
   The inductive invariant of the router world and its consequences for reachable states.
 -/
-import MxModel.Lemmas.RouterUser
+import MxModel.Lemmas.RouterAdmin
 
 namespace Mx.Router
 
@@ -152,6 +152,13 @@ theorem step_frame {s s' : St} {op : Op} {o : Out} (h : step s op = some (s', o)
   | lock u coll orig amount unlock => exact lockTokens_frame h
   | unlock u k amount => exact unlockTokens_frame h
   | advance e => exact advance_frame h
+  | setTmpPeriod c n => exact setTmpPeriod_frame h
+  | clearTmp c => exact clearTmp_frame h
+  | issueLp c a => exact issueLp_frame h
+  | setLocalRoles c a => exact setLocalRoles_frame (c := c) h
+  | upgradePair c t1 t2 => exact upgradePair_frame h
+  | advanceBlock n => exact advanceBlock_frame h
+  | bareNext b => exact setBareNext_frame h
 
 theorem step_inv {s s' : St} {op : Op} {o : Out} (hi : Inv s) (h : step s op = some (s', o)) :
     Inv s' := by
@@ -178,6 +185,13 @@ theorem step_inv {s s' : St} {op : Op} {o : Out} (hi : Inv s) (h : step s op = s
   | lock u coll orig amount unlock => exact (step_frame h (by intros; simp) (by intros; simp)).inv hi
   | unlock u k amount => exact (step_frame h (by intros; simp) (by intros; simp)).inv hi
   | advance e => exact (step_frame h (by intros; simp) (by intros; simp)).inv hi
+  | setTmpPeriod c n => exact (step_frame h (by intros; simp) (by intros; simp)).inv hi
+  | clearTmp c => exact (step_frame h (by intros; simp) (by intros; simp)).inv hi
+  | issueLp c a => exact (step_frame h (by intros; simp) (by intros; simp)).inv hi
+  | setLocalRoles c a => exact (step_frame h (by intros; simp) (by intros; simp)).inv hi
+  | upgradePair c t1 t2 => exact (step_frame h (by intros; simp) (by intros; simp)).inv hi
+  | advanceBlock n => exact (step_frame h (by intros; simp) (by intros; simp)).inv hi
+  | bareNext b => exact (step_frame h (by intros; simp) (by intros; simp)).inv hi
 
 theorem step_owner {s s' : St} {op : Op} {o : Out} (h : step s op = some (s', o)) :
     s'.owner = s.owner ∧ s'.self = s.self := by
@@ -208,6 +222,13 @@ theorem step_owner {s s' : St} {op : Op} {o : Out} (h : step s op = some (s', o)
   | lock u coll orig amount unlock => exact (fun f : Frame s s' => ⟨f.owner, f.self⟩) (step_frame h (by intros; simp) (by intros; simp))
   | unlock u k amount => exact (fun f : Frame s s' => ⟨f.owner, f.self⟩) (step_frame h (by intros; simp) (by intros; simp))
   | advance e => exact (fun f : Frame s s' => ⟨f.owner, f.self⟩) (step_frame h (by intros; simp) (by intros; simp))
+  | setTmpPeriod c n => exact (fun f : Frame s s' => ⟨f.owner, f.self⟩) (step_frame h (by intros; simp) (by intros; simp))
+  | clearTmp c => exact (fun f : Frame s s' => ⟨f.owner, f.self⟩) (step_frame h (by intros; simp) (by intros; simp))
+  | issueLp c a => exact (fun f : Frame s s' => ⟨f.owner, f.self⟩) (step_frame h (by intros; simp) (by intros; simp))
+  | setLocalRoles c a => exact (fun f : Frame s s' => ⟨f.owner, f.self⟩) (step_frame h (by intros; simp) (by intros; simp))
+  | upgradePair c t1 t2 => exact (fun f : Frame s s' => ⟨f.owner, f.self⟩) (step_frame h (by intros; simp) (by intros; simp))
+  | advanceBlock n => exact (fun f : Frame s s' => ⟨f.owner, f.self⟩) (step_frame h (by intros; simp) (by intros; simp))
+  | bareNext b => exact (fun f : Frame s s' => ⟨f.owner, f.self⟩) (step_frame h (by intros; simp) (by intros; simp))
 
 theorem run_inv (ops : List Op) {s : St} (hi : Inv s) : Inv (run s ops) := by
   induction ops generalizing s with
